@@ -381,11 +381,13 @@ class HttpParser:
                 self.body = b''
             total_size = int(self.header(b'content-length'))
             received_size = len(self.body)
-            self.body += raw[:total_size - received_size]
-            if self.body and \
-                    len(self.body) == int(self.header(b'content-length')):
+            # NOTE: A repeated content-length header may have shrunk
+            # the expected size, never wait for a non-positive amount.
+            remaining = max(total_size - received_size, 0)
+            self.body += raw[:remaining]
+            if len(self.body) >= total_size:
                 self.state = httpParserStates.COMPLETE
-            return len(raw) > 0, raw[total_size - received_size:]
+            return len(raw) > 0, raw[remaining:]
         # Received a packet without content-length header
         # and no transfer-encoding specified.
         #
